@@ -101,6 +101,11 @@ func c16Shapes() []*c16Case {
 	twice.HasUnion = true
 	twice.Tokens = []gram.TokDecl{{Name: "TA", Tag: "v"}, {Name: "TA", Num: 100}}
 	add("token-declared-twice", twice)
+	for ai, act := range []string{" $$ = $1 /* a block comment */ ", "\n\t// a line comment\n\t$$ = $1\n", " $$ = $1 * 2 / 1 /* c1 */ /* c2 */ ", " s := \"*/ in a string\"; _ = s; $$ = $1 "} {
+		cs := &gram.Spec{Start: "S", HasUnion: true, Union: " v int ", Tokens: []gram.TokDecl{{Name: "TA", Tag: "v"}}, Types: []gram.TypeDecl{{Tag: "v", Names: []string{"S"}}}}
+		cs.Rules = []gram.Rule{{L: "S", R: []string{"S", "TA"}, Action: act}, {L: "S", R: []string{"TA"}, Action: " $$ = $1 "}}
+		add(fmt.Sprintf("comment-in-action-%d", ai), cs)
+	}
 	long := &gram.Spec{Start: "S", HasUnion: true, Union: " v int ", Tokens: []gram.TokDecl{{Name: "TA", Tag: "v"}}, Types: []gram.TypeDecl{{Tag: "v", Names: []string{"S"}}}}
 	lr := gram.Rule{L: "S", Action: " $$ = $1 + $9 + $10 + $11 + $12 "}
 	for k := 0; k < 12; k++ {
@@ -170,6 +175,9 @@ func c16Source(s *gram.Spec, variant, pkg string) string {
 			c.Rules = append([]gram.Rule(nil), c.Rules...)
 			if c.Rules[i].Action == " _ = $1 " {
 				c.Rules[i].Action = " let unused = $1 "
+			}
+			if strings.HasPrefix(c.Rules[i].Action, " s := ") {
+				c.Rules[i].Action = " let s = \"*/ in a string\"; $$ = $1 "
 			}
 		}
 	} else {
